@@ -79,7 +79,9 @@ CLAIMED = {
             "Bytes are parsed into the abstract value by the harness (encoding/json token stream, order and numeral spelling kept) - TLC checks "
             "well-formedness independently on the raw bytes; exhaustive only over the enumerated domains.", "3/C15"),
     "C16": ("TLA+ requirement Ast!RootAST (one node per example value, token kind, literal text, schema type, rules as written with nested "
-            "items, notes, generated rules of shortcuts); TLC enumerates schemas with their expected trees; structural replay of GetAST()",
+            "items, notes, generated rules of shortcuts); TLC enumerates schemas with their expected trees; structural replay of GetAST(). "
+            "TLA+ module Bind: the loader's annotation binding as a two-layer model (reading of the notation = loader algorithm on every layout, "
+            "two defect switches), every layout replayed through the real loader",
             "For every schema of the rule families and the special shapes (notes on every node kind, named and inline enums, allOf, key "
             "shortcuts, or rule-sets with nested enum, references with one/several names, nested and empty containers, escaped keys, "
             "non-canonical numerals in rule values, false-valued rules) the tree returned by GetAST() must equal the tree TLC computed, "
@@ -135,7 +137,9 @@ CLAIMED = {
             "from Len = |S| and is not re-checked.", "3/C14"),
     "C13": ("TLA+ module Surface enumerates layout vectors (house style, all single deviations, line-end pairs; all pairs in the thorough tier) and "
             "document spellings; expectations are the verdict vectors of Sem / Chk computed for the abstract schema, which by construction do not "
-            "depend on the spelling; replay of every spelling through Check, GetAST and Validate",
+            "depend on the spelling; replay of every spelling through Check, GetAST and Validate. TLA+ module Gaps: token lists of schemas and of "
+            "an enum rule, every gap (pair of gaps) filled with every filler its kind admits, under the three line ends; same AST and verdicts as "
+            "the compact spelling",
             "Every sampled schema of the GenRules / GenShape / GenTypes / GenExample domains is rendered under every layout vector; each spelling must "
             "pass Check, give the house-style AST (comments and notes aside, rule maps unordered) and the TLC verdict on a stride of documents; every "
             "selected document is re-spelled 18 ways (whitespace, property order, \\uXXXX and \\/ escapes in values and keys) and must keep its verdict.",
